@@ -10,6 +10,7 @@ import (
 	"fmt"
 	"io"
 	"log"
+	"math"
 	"net"
 	"os"
 	"slices"
@@ -78,6 +79,10 @@ const (
 	// maxConcurrentConns bounds the number of connections the service handles
 	// concurrently, preventing connection floods from spawning unbounded goroutines.
 	maxConcurrentConns = 512
+
+	// maxMessagePrealloc is the largest request buffer allocated before any of
+	// the request's bytes have arrived.
+	maxMessagePrealloc = 1 << 20
 )
 
 func init() {
@@ -378,13 +383,12 @@ func (s *Service) handleConn(conn net.Conn) {
 		}
 		sz := binary.LittleEndian.Uint64(b[0:])
 
-		p := make([]byte, sz)
 		if s.connTimeout > 0 {
 			if err := conn.SetReadDeadline(time.Now().Add(s.connTimeout)); err != nil {
 				return
 			}
 		}
-		_, err = io.ReadFull(conn, p)
+		p, err := readMessage(conn, sz)
 		if err != nil {
 			return
 		}
@@ -687,6 +691,26 @@ func (s *Service) handleConn(conn net.Conn) {
 			}
 		}
 	}
+}
+
+// readMessage reads a message of sz bytes from r. Only a small buffer is
+// allocated on the word of the length prefix alone; a larger message is read
+// incrementally, so memory is committed as the peer delivers the bytes and a
+// bogus or hostile length prefix cannot make the node allocate (or crash).
+func readMessage(r io.Reader, sz uint64) ([]byte, error) {
+	if sz <= maxMessagePrealloc {
+		p := make([]byte, sz)
+		_, err := io.ReadFull(r, p)
+		return p, err
+	}
+	if sz > math.MaxInt64 {
+		return nil, fmt.Errorf("message length %d out of range", sz)
+	}
+	var buf bytes.Buffer
+	if _, err := io.CopyN(&buf, r, int64(sz)); err != nil {
+		return nil, err
+	}
+	return buf.Bytes(), nil
 }
 
 func marshalAndWrite(conn net.Conn, m pb.Message) error {
